@@ -9,6 +9,26 @@ const PREDICATE_B: &str = "where_predicate = __Deserr_E: deserr::MergeWithError<
 
 /// How the attributes of one item are written: in one `#[deserr(..)]`, one per line, or in a
 /// seeded grouping, and in a seeded order. The derive must honour all of them alike.
+/// Container attributes: the ones without which the generated impl would not even compile (the
+/// tag, a `from` / `try_from`, the where-predicates) stay together in a first `#[deserr(..)]`; the
+/// ones whose loss would be silent (`rename_all`, `deny_unknown_fields`, `validate`) are laid out
+/// after it like any others, so that a derive that stops reading attributes early is caught by a
+/// property instead of by the compiler.
+fn layout_container(attrs: &[String], salt: &str) -> String {
+    let pinned: Vec<String> = attrs.iter().filter(|a| is_structural(a)).cloned().collect();
+    let rest: Vec<String> = attrs.iter().filter(|a| !is_structural(a)).cloned().collect();
+    let mut out = String::new();
+    if !pinned.is_empty() {
+        let _ = writeln!(out, "#[deserr({})]", pinned.join(", "));
+    }
+    out.push_str(&layout(&rest, salt, ""));
+    out
+}
+
+fn is_structural(a: &str) -> bool {
+    a.starts_with("tag = ") || a.starts_with("where_predicate") || a.starts_with("from(") || a.starts_with("try_from(")
+}
+
 fn layout(attrs: &[String], salt: &str, indent: &str) -> String {
     let h = crate::rng::hash_str(salt);
     let mut rng = crate::rng::Rng::new(h);
@@ -254,7 +274,7 @@ pub fn emit(cat: &Catalogue, program_seed: u64, n_gen: usize, uniform: bool) -> 
                 attrs.extend(deny_attr(deny));
                 attrs.extend(validate_attr(validate, name));
                 let _ = writeln!(out, "#[derive(Deserr)]");
-                let _ = write!(out, "{}", layout(&attrs, name, ""));
+                let _ = write!(out, "{}", layout_container(&attrs, name));
                 let _ = writeln!(out, "pub struct {name} {{");
                 emit_fields(cat, fields, "    ", name, &mut out);
                 let _ = writeln!(out, "}}");
@@ -292,7 +312,7 @@ pub fn emit(cat: &Catalogue, program_seed: u64, n_gen: usize, uniform: bool) -> 
                 let mut attrs = vec![conv, PREDICATE_USER.to_string(), PREDICATE_B.to_string()];
                 attrs.extend(validate_attr(validate, name));
                 let _ = writeln!(out, "#[derive(Deserr)]");
-                let _ = write!(out, "{}", layout(&attrs, name, ""));
+                let _ = write!(out, "{}", layout_container(&attrs, name));
                 let _ = writeln!(out, "pub struct {name} {{\n    pub v: MVal,\n}}");
                 let _ = writeln!(out, "impl Wrap for {name} {{\n    fn wrap(v: MVal) -> Self {{\n        {name} {{ v }}\n    }}\n}}");
                 let _ = writeln!(out, "impl ToModel for {name} {{\n    fn to_model(&self) -> MVal {{\n        self.v.clone()\n    }}\n}}\n");
@@ -310,7 +330,7 @@ pub fn emit(cat: &Catalogue, program_seed: u64, n_gen: usize, uniform: bool) -> 
 
 fn emit_enum(cat: &Catalogue, name: &str, attrs: &[String], variants: &[VariantDef], out: &mut String) {
     let _ = writeln!(out, "#[derive(Deserr)]");
-    let _ = write!(out, "{}", layout(attrs, name, ""));
+    let _ = write!(out, "{}", layout_container(attrs, name));
     let _ = writeln!(out, "pub enum {name} {{");
     for v in variants {
         let mut va: Vec<String> = vec![];
